@@ -291,4 +291,22 @@ def projectionCheck (ch : Nat) : Bool :=
 
 theorem projectionCheck_all : ∀ ch ∈ List.range 256, 1 ≤ ch → projectionCheck ch = true := by decide +kernel
 
+/-- Outside family 3 / 1..227 channels the projection encoder refuses. -/
+theorem projection_out_of_domain (dims : Nat → Option (Nat × Nat × Nat × Nat)) (innerOk : Bool) (channels family : Int)
+    (h : family ≠ 3 ∨ channels < 1 ∨ channels > 227) :
+    projectionInit dims innerOk channels family = .err .badArg ∧
+    projectionCreate dims innerOk channels family = .err .allocFail := by
+  have hs : streamsFromChannels channels family = none := by
+    unfold streamsFromChannels
+    by_cases hf : family = 3
+    · have hc : channels < 1 ∨ channels > 227 := by
+        rcases h with h | h
+        · exact absurd hf h
+        · exact h
+      simp [hf, orderPlusOneFromChannels, hc]
+    · simp [hf]
+  constructor
+  · simp [projectionInit, hs]
+  · simp [projectionCreate, projectionSizeNonzero, hs]
+
 end Opus.Layout
